@@ -252,16 +252,27 @@ func init() {
 			if reset == nil {
 				c.Fail("C14e/AppendEntry/takes-over-pending-delete", c.P.Pos(ap.Pos()), "the previous latest version's pending delete is no longer taken over by the appended version")
 			} else {
+				// the takeover may depend only on: a previous version was found and is usable
+				// (found, not deleted now, not the same block, not deleted by the new block) and
+				// it has a pending delete. Any further condition (e.g. "only for future
+				// versions") leaves the delete on a superseded version.
 				direct := false
-				for _, p := range reset.Block().Preds {
-					iff, ok := p.Instrs[len(p.Instrs)-1].(*ssa.If)
-					if !ok {
-						continue
-					}
-					f := ir.Fact(iff.Cond, p.Succs[0] == reset.Block())
-					if strings.HasPrefix(f, "call(x/fixationstore/types.Entry.HasDeleteAt)(") && len(reset.Block().Preds) == 1 {
+				extra := ""
+				for _, f := range ir.GuardFacts(reset) {
+					switch {
+					case strings.HasPrefix(f, "call(x/fixationstore/types.Entry.HasDeleteAt)("):
 						direct = true
+					case strings.HasPrefix(f, "!call(x/fixationstore/types.Entry.IsDeletedBy)("),
+						strings.HasPrefix(f, "!call(x/fixationstore/types.Entry.IsDeleted)("),
+						strings.HasSuffix(f, ".Block != param#2)"), strings.HasSuffix(f, ".Block <= param#2)"),
+						strings.HasPrefix(f, "call("+fsK+"getUnmarshaledEntryForBlock)("),
+						strings.Contains(f, "SanitizeIndex)(param#1)#1 == nil)"):
+					default:
+						extra = f
 					}
+				}
+				if extra != "" {
+					direct = false
 				}
 				if direct {
 					c.OK("C14e/AppendEntry/takes-over-pending-delete", c.P.InstrPos(reset), "directly under latestEntry.HasDeleteAt()")
@@ -281,6 +292,32 @@ func init() {
 				c.OK("C14e/AppendEntry/transfers-delete-timer-to-new-version", c.P.Pos(ap.Pos()), "")
 			} else {
 				c.Fail("C14e/AppendEntry/transfers-delete-timer-to-new-version", c.P.Pos(ap.Pos()), "the delete timer is not moved to the appended version")
+			}
+		}
+		c.Rule("C14f delete discards the future: every successful return of DelEntry has passed trimFutureEntries (a deleted entry's not-yet-effective versions must not come back to life); a delete at the current block calls deleteMarkedEntry, a later one arms a delete timer at that block")
+		if de := c.Fn(fsK + "DelEntry"); de != nil {
+			r := c.MustPass(de, nil, IsCallTo(fsK+"trimFutureEntries"), SuccessExit)
+			if r.OK && len(c.SuccessReturns(de)) > 0 {
+				c.OK("C14f/DelEntry/success=>future-versions-trimmed", c.P.Pos(de.Pos()), itoa(len(c.SuccessReturns(de)))+" success returns")
+			} else {
+				c.Fail("C14f/DelEntry/success=>future-versions-trimmed", c.P.Pos(de.Pos()), "DelEntry can succeed without trimFutureEntries ("+r.Witness+"): a future version of the deleted entry stays findable and becomes the latest again when its block arrives")
+			}
+			okNow, okLater := false, false
+			for _, s := range c.CallsByName(de, false, fsK+"deleteMarkedEntry") {
+				if ir.HasFact(ir.GuardFacts(s.Instr), "(conv<uint64>(call(github.com/cosmos/cosmos-sdk/types.Context.BlockHeight)(param#0)) == param#2)") || ir.HasFact(ir.GuardFacts(s.Instr), "(param#2 == conv<uint64>(call(github.com/cosmos/cosmos-sdk/types.Context.BlockHeight)(param#0)))") {
+					okNow = true
+				}
+			}
+			for _, s := range c.CallsByName(de, false, tsK+"AddTimerByBlockHeight") {
+				call := ir.CallOf(s.Instr)
+				if ir.Desc(call.Args[2]) == "param#2" && strings.Contains(ir.DescN(call.Args[3], 8), c.Const("x/fixationstore/types", "timerDeleteEntry")) {
+					okLater = true
+				}
+			}
+			if okNow && okLater {
+				c.OK("C14f/DelEntry/now=>deleteMarkedEntry,later=>delete-timer", c.P.Pos(de.Pos()), "")
+			} else {
+				c.Fail("C14f/DelEntry/now=>deleteMarkedEntry,later=>delete-timer", c.P.Pos(de.Pos()), "an immediate delete is not applied now, or a future delete has no timer at its block")
 			}
 		}
 		c.NotCovered("equivalence with a reference model over operation sequences; AppendEntry/DelEntry/future-version bookkeeping; the marker logic that decides which stale versions must stay; that legal use never reaches the assertion panics")
